@@ -63,7 +63,8 @@ func GetJsonDataType(t dsl.Type) JsonDataType {
 		}
 	case *dsl.EnumDefinition:
 		if td.IsFlags {
-			return JsonArray
+			// an array of symbols, or the integer value when undefined bits are set
+			return JsonArray | JsonNumber
 		}
 		return JsonString | JsonNumber
 	case *dsl.RecordDefinition:
